@@ -1,9 +1,29 @@
-/- driver handler of the `retry` stream (line protocol, see Main.lean) -/
+/- driver handler of the `retry` stream -/
 import AslModel.Drv.Util
+import AslModel.Retry
+import AslModel.Interp
 namespace Asl.Drv.Retry
-open Asl
+open Asl Asl.Drv
+
+def ratText (r : Rat) : String := toString r.num ++ "/" ++ toString r.den
 
 def handle : List String → String
+  | ["decide", state, err, count] =>
+    match rd state, rd err, count.toNat? with
+    | some st, some (.str e), some n =>
+      let rs := (listOf (fld st "Retry")).map retrierOf
+      let cs := (listOf (fld st "Catch")).map catcherOf
+      match decideError rs cs e n with
+      | .retry d k => "retry\t" ++ ratText d ++ "\t" ++ toString k
+      | .caught c =>
+        let nx : Json := match c.next with | some s => .str s | none => .null
+        let rp : Json := match c.resultPath with
+          | none => .str ['$']
+          | some (some p) => .str p
+          | some none => .null
+        "caught\t" ++ js nx ++ "\t" ++ js rp
+      | .uncaught => "uncaught"
+    | _, _, _ => "unsupported"
   | _ => "bad-op"
 
 end Asl.Drv.Retry
